@@ -68,3 +68,13 @@ Theorem C14_layout_every_text : forall (C : Classifier) (K : ClassifierOk) (U : 
                                    b_sep := sep; b_trailing := negb (o_notrailing o) |})) e.
 Proof. intros C K U. exact two_columns_layout_all. Qed.
 Print Assumptions C14_layout_every_text.
+
+(* no line of the layout exceeds the (minimum-clamped) total width - every text: each row is
+   the k-th wrapped left line, the padding, the k-th wrapped right line, and cluster counts are
+   subadditive (C06_clusters_subadditive) *)
+Theorem C14_rows_width : forall (C : Classifier) (K : ClassifierOk) (U : Upper) lt rt gap width m ex sep lb rb,
+  let '(W, lw, rw) := two_col_widths width gap m ex in
+  0 <= gap -> wrap lt lw sep = Ok lb -> wrap rt rw sep = Ok rb ->
+  forall k, glen (row_of (b_lines lb) (b_lines rb) (lw + gap) k) <= W.
+Proof. intros C K U. exact two_columns_rows_width. Qed.
+Print Assumptions C14_rows_width.
